@@ -148,6 +148,13 @@ def push_parser(ctx, rule='C02.push-parser'):
     ln = [norm(s) for s in lb]
     R.check('body_length = struct.unpack_from(self.packet_info[2], self.packet, 1 + self.packet_info[1])[0]' in ln and 'self.bytes_needed = body_length' in ln and 'self.state = PacketParser.NEED_BODY' in ln, rule, key + ' | LENGTH -> BODY',
             'length unpacked with info[2] at 1+info[1] of the accumulated packet', 'LENGTH->BODY transition changed', p.loc(chain.orelse[0]))
+    # the body length is the unpacked field, unmodified, on every path of the LENGTH step
+    from .. import sym
+    res = paths.run_block(lb, sym.Sym(), sym.Sym.init())
+    vals = {st.get('self.bytes_needed') for k_, f_, st, e_, w_ in sym.exits(res)}
+    want = 'struct.unpack_from(self.packet_info[2], self.packet, 1 + self.packet_info[1])[0]'
+    R.check(vals == {want}, rule, key + ' | body length is the length field', 'bytes_needed = the value unpacked with the table\'s format, on every path, exactly as the pull framers use it',
+            f'the push parser alters the unpacked length before using it ({sorted(str(v) for v in vals)}): it frames some well-formed packets differently from the other framers', p.loc(chain.orelse[0]))
     emit = [s for s in done.body[1:] if isinstance(s, ast.If) and 'PacketParser.NEED_BODY' in norm(s.test)]
     ok = len(emit) == 1 and norm(emit[0].test) == 'self.state == PacketParser.NEED_BODY and (not self.bytes_needed)'
     R.check(ok, rule, key + ' | emission test', 'a separate `if` after the transitions: a zero-length body is emitted in the same iteration', 'the emission test is not evaluated after the LENGTH->BODY transition of the same iteration (zero-length packets are emitted late or merged)', p.loc(done))
